@@ -276,8 +276,15 @@ class Ctx:
     def violation(self, kind: str, stream: str, case, detail, tags=None):
         """kind: 'failing-input' (the property fails on the real code for this input) or
         'tie-broken' (model and code differ where the property is not decided by the difference)."""
-        if len(self.violations) < 50:
-            self.violations.append(dict(kind=kind, stream=stream, case=case, detail=detail, tags=tags or {}))
+        v = dict(kind=kind, stream=stream, case=case, detail=detail, tags=tags or {})
+        if kind == "failing-input" and self._matches_known(v) is not None:
+            # hits of a listed finding never crowd out other violations
+            if sum(1 for x in self.violations if x.get("_known")) < 3:
+                self.violations.append(dict(v, _known=True))
+            return
+        # separate budgets: broken ties must not crowd out failing inputs (which take precedence)
+        if sum(1 for x in self.violations if not x.get("_known") and x["kind"] == kind) < 50:
+            self.violations.append(v)
 
     def time_left(self, budget):
         return budget - (time.time() - self.t0)
